@@ -16,8 +16,9 @@ ASSUMPTIONS = [
     "reference = sgp4.api.Satrec.twoline2rv(l1, l2, WGS72).sgp4(jd, fr) (Vallado's C++ code, accelerated build), "
     "called directly on the oracle-formatted text with jd = integer day + 0.5 and fr = exact fraction of day",
     "tolerances are the property's: wrapper |dr| <= |v| x 50 us + 1 mm, |dv| <= |a| x 50 us + 1e-6 m/s, or the "
-    "displacement of the reference state itself over 5/20/50 us where that is larger (singular element sets, "
-    "e.g. deep-space at i = 180 deg; labelled reference-singular and not counted as non-trivial); "
+    "element sets at which the reference itself moves by more than twice that within 5/20/50 us (singular: "
+    "deep-space periodics divide by sin i, e.g. i within ~1e-4 deg of 180 deg) are labelled reference-singular, "
+    "not compared and not counted as non-trivial; "
     "native 1 cm",
     "target dates and epochs UTC-labelled (label effects are C04's subject); EOP configuration 'zero' "
     "(TEME output does not depend on EOP; Date construction needs TAI-UTC)",
@@ -28,7 +29,8 @@ ASSUMPTIONS = [
     "reports decay (128 samples between epoch and target) are outside the quantifier",
     "native velocity tolerance = 1 cm x |v|/|r| (about 1.1e-5 m/s in LEO): the statement names only '1 cm'",
 ]
-LEVEL_TEXT = "exploration"
+LEVEL_TEXT = ("Generated-input search (Hypothesis) over element sets and target dates against the reference "
+              "SGP4/SDP4 implementation called directly; no absence claim beyond the inputs explored.")
 LEVEL_NOTE = ("Randomised exploration of the element/offset space with mass on the model switches "
               "(225 min, e < 1e-4, perigee floors 98/156/220 km, i = 0/180, B* = 0).")
 TECHNIQUE = "property-based testing (Hypothesis) against the reference implementation called directly"
@@ -133,12 +135,13 @@ def compare(sv, date_dt, rr, rv, pos_tol, vel_tol, what):
 
 
 def wrapper_tols(sat, dt_us, rr, rv):
-    """The property's bound "within the library's time resolution (|v| x 50 us)": the displacement
-    of the reference state over 50 us.  Where the theory is smooth that is |v| x 50 us (and
-    |a| x 50 us for the velocity); where it is singular (deep-space periodics divide by sin i: at
-    i = 180 deg the reference moves by decimetres per nanosecond) it is what the reference itself
-    does over such an interval, sampled at +-5, +-20, +-50 us.
-    Returns (position tolerance, velocity tolerance, True if the sampled displacement dominates)."""
+    """The property's bound "within the library's time resolution (|v| x 50 us)": |v| x 50 us for the
+    position, |a| x 50 us for the velocity (plus 1 mm / 1e-6 m/s of arithmetic).
+    The reference is also sampled at +-5, +-20, +-50 us around the target: where it moves by more
+    than twice |v| x 50 us in such an interval the theory is singular (deep-space periodics divide
+    by sin i: at i = 180 deg the reference moves by decimetres per nanosecond) and no bound of this
+    kind means anything - the third value returned is then True.
+    Returns (position tolerance, velocity tolerance, singular)."""
     import numpy as np
 
     r = float(np.linalg.norm(rr))
@@ -177,9 +180,13 @@ def check_wrapper(case):
         return dict(nt=False, cls=cls + [f"ref-error-{err}"])
     sv = _propagate(orb, date, case, f)
     ptol, vtol, singular = wrapper_tols(sat, case["dt_us"], rr, rv)
-    ratio = compare(sv, date_dt, rr, rv, ptol, vtol, what="wrapper")
     if singular:
+        # the reference is not a continuous function of time at the 50 us scale here (it moves by
+        # > 2 |v| x 50 us within 50 us): "within the time resolution" cannot be decided; only the
+        # frame / date / finiteness of the result are checked
+        ptol = vtol = float("inf")
         cls.append("reference-singular")
+    ratio = compare(sv, date_dt, rr, rv, ptol, vtol, what="wrapper")
     return dict(nt=abs(case["dt_us"]) > 60 * 10**6 and not singular,
                 cls=cls + [f"mode:{case.get('mode', 'direct')}"], ratio=ratio)
 
@@ -216,7 +223,10 @@ def _propagate(orb, date, case, f):
         d2 = to_datetime(mjd2, us2)
         if err2 == 0:
             sv2 = other.propagate(Date(d2))
-            compare(sv2, d2, rr2, rv2, *wrapper_tols(sat2, case["dt2_us"], rr2, rv2)[:2], what="wrapper-rebind")
+            p2, v2, singular2 = wrapper_tols(sat2, case["dt2_us"], rr2, rv2)
+            if singular2:
+                p2 = v2 = float("inf")
+            compare(sv2, d2, rr2, rv2, p2, v2, what="wrapper-rebind")
         else:
             try:
                 other.propagate(Date(d2))
@@ -286,14 +296,14 @@ def check_native(case):
 
 FACETS = [
     Facet("wrapper_near_earth", case_strategy("near", ("direct", "direct", "timedelta")), check_wrapper, setup=_eop,
-          rule="|offset| > 1 min, reference error code 0", quick=(6, 700), thorough=(16, 12000)),
+          rule="|offset| > 1 min, reference error code 0", quick=(6, 700), thorough=(16, 8000)),
     Facet("wrapper_deep_space", case_strategy("deep", ("direct", "direct", "timedelta")), check_wrapper, setup=_eop,
-          rule="|offset| > 1 min, reference error code 0", quick=(6, 600), thorough=(16, 10000)),
+          rule="|offset| > 1 min, reference error code 0", quick=(6, 600), thorough=(16, 7000)),
     Facet("native", case_strategy("native", ("direct", "direct", "timedelta")), check_native, setup=_eop,
           rule="|offset| > 1 min, reference in its full near-Earth model (method n, perigee >= 220 km)",
-          quick=(6, 700), thorough=(16, 12000)),
+          quick=(6, 700), thorough=(16, 8000)),
     Facet("wrapper_via_orbit_copy", case_strategy("any", ("copy", "form", "rebind", "twice"), pair=True),
           check_wrapper, setup=_eop,
           rule="|offset| > 1 min; the orbit is copied, converted, or shares its propagator before propagating",
-          quick=(6, 400), thorough=(16, 6000)),
+          quick=(6, 400), thorough=(16, 4000)),
 ]
